@@ -16,10 +16,12 @@ def run_case(nvoters, F, seed, steps=120):
     import pysyncobj.pickle as sopickle
     rng = random.Random(seed)
     ids = ['a', 'b', 'c', 'd', 'e'][:nvoters]
-    memb = nvoters >= 3 and rng.random() < 0.4
+    memb = nvoters >= 2 and rng.random() < 0.4
     cfg = {'voters': ids, 'init_connected': True, 'period': 10.0, 'fallback': float(F)}
     if memb:
         cfg['membership'] = True
+        cfg['spares'] = ['z']        # a node that may be added as a member although its process is never started
+    early_cut = (not memb) and rng.random() < 0.2     # cut off the moment it wins, before anything of its term is acknowledged
     # read-only nodes stay connected to the leader and keep answering it whatever happens to the voters
     observers = ['o1', 'o2'][:rng.choice([0, 0, 1, 2])] if not memb else []
     if observers:
@@ -37,14 +39,28 @@ def run_case(nvoters, F, seed, steps=120):
                 if not moved:
                     break
         cl.step(('Tick', 'a', 'j'))
-        drain()
-        for o_ in observers:
+        if early_cut:
+            # only the votes travel; what the new leader sends after that is lost, nothing of its term is ever acknowledged
+            for _ in range(3):
+                for f in ids[1:]:
+                    if not cl.nodes['a'].obj._isLeader():
+                        while cl.applicable(('Deliver', 'a', f)):
+                            cl.step(('Deliver', 'a', f))
+                        while cl.applicable(('Deliver', f, 'a')) and not cl.nodes['a'].obj._isLeader():
+                            cl.step(('Deliver', f, 'a'))
+            for f in ids[1:]:
+                cl.net.chan[('a', f)] = []
+                cl.net.chan[(f, 'a')] = []
+        else:
+            drain()
+        for o_ in (observers if not early_cut else []):
             for v_ in ids:
                 if cl.applicable(('Connect', o_, v_)):
                     cl.step(('Connect', o_, v_))
-        drain()
-        cl.step(('Tick', 'a', 'z'))
-        drain()
+        if not early_cut:
+            drain()
+            cl.step(('Tick', 'a', 'z'))
+            drain()
         L = cl.nodes['a']
         t0 = L.clock
         acks = {}          # cid -> observation index at submission
@@ -80,7 +96,7 @@ def run_case(nvoters, F, seed, steps=120):
             cl.step(('Deliver', f, 'a'))
             obs('Reply', **{'from': f, 'mt': mt})
         obs('Init')
-        cut = set()
+        cut = set(ids[1:]) if early_cut else set()
         removed = None
         ncmd = 0
         for _ in range(steps):
@@ -141,8 +157,12 @@ def run_case(nvoters, F, seed, steps=120):
                 cl.step(('Submit', 'a', cid, {'kind': 'op'}))
                 obs('Sub')
             elif memb and removed is None:
-                removed = rng.choice(ids[1:])
-                cl.step(('Submit', 'a', 'm1', {'kind': 'rem', 'x': removed}))
+                if rng.random() < 0.5 and len(ids) >= 3:
+                    removed = rng.choice(ids[1:])
+                    cl.step(('Submit', 'a', 'm1', {'kind': 'rem', 'x': removed}))
+                else:
+                    removed = 'z'       # (added, never started: it never answers)
+                    cl.step(('Submit', 'a', 'm1', {'kind': 'add', 'x': 'z'}))
                 obs('Sub')
         return {'f': int(F), 'n': nvoters, 'steps': trace}
     finally:
